@@ -171,10 +171,32 @@ ROUND6 = {
  "C19": ("/tmp/out6-C19", ["C19"], "C19 inputs now use five reference-system flavours (EPSG codes, projections on a bare ellipsoid, a geographic system) and compare them by definition, not by text", "write_data_array converts the CRS with to_string() (lossy for systems without authority code)", "input CRS without authority code that GDAL matches to an EPSG entry"),
  "C20": ("/tmp/out6-C20", ["C20"], "C20 draws the optional geometric_prior of the optimisation step", "optimization_check_conf returns early for an internal prior, before the margins are recorded", "optimization step with geometric_prior source internal"),
 }
+ROUND7 = {
+ "C01": ("/tmp/out7-C01", ["C01"], "C01's two-pipeline histories now hand the COMPLETED configuration back with two steps exchanged (same verdict and content as on a new machine) and look again at the first returned configuration after the second check", "check_pipeline_section skips the machine check when the pipeline dict equals the machine's completed one (dict equality ignores the order)", "machine that has completed a check + the completed configuration re-checked with its steps in another order"),
+ "C02": ("/tmp/out7-C02", ["C02"], "C02 gained the 'faint' texture (0..2 counts on a 3000 count level) at subpix 1", "compute_std_raster zeroes variances below float32 eps * E[x^2]", "zncc + windows with a tiny but non-zero relative variance"),
+ "C03": ("/tmp/out7-C03", ["C03"], "a third of the C03 synthetic cases reuse the same disparity object for a second volume of the same shape and of the other type of measure", "WinnerTakesAll keeps the min/max rule of the first volume of a given shape", "one disparity object used for two volumes of equal shape and different type_measure (API use)"),
+ "C04": ("/tmp/out7-C04", ["C04"], "a quarter of the C04 cause cases are the SECOND run on the same dataset objects after an in-place edit of their masks", "dilated no-data masks memoised under id(mask array)", "same dataset objects run twice with their masks edited in place in between"),
+ "C05": ("/tmp/out7-C05", ["C01"], "reported by C01's new 'earlier result changed by a later check' clause; C05 itself checks every configuration right after its own call and on machines of its own, where nothing shows", "check_pipeline_section returns the machine's own dict, which the next check empties in place", "two checks on one machine, the first returned configuration looked at again"),
+ "C06": ("/tmp/out7-C06", [], "NOT REPORTED: the changed kernel serves approximate_subpixel_refinement only, an entry point no pipeline reaches (the state machine never calls it); the statement quantifies over what a legal pipeline can reach", "approximate refinement reads its neighbour costs at dsp +- 1 instead of dsp +- subpix", "direct call of approximate_subpixel_refinement at subpix 2/4"),
+ "C07": ("/tmp/out7-C07", ["C07"], "a third of the C07 synthetic pairs give the other map an interval that is not the mirror of the checked map's", "the mismatch search takes its disparities from the other map's interval, negated", "maps whose intervals are not opposite (right interval given by the user)"),
+ "C08": ("/tmp/out7-C08", ["C08", "C02"], "half of the multiband C08 cases store the bands of the second image in another order (C02 reported it unchanged)", "sad/ssd cache the band positions on the instance, reused with the images exchanged", "multiband + band order differing between the images + validation"),
+ "C09": ("/tmp/out7-C09", ["C09"], "three C09 end-to-end cases per shard give the right image its own interval, in a dataset without the optional disparity_source attribute, and judge the right map against it", "run_prepare decides 'the right image has its own disparities' from the disparity_source attribute", "right dataset with a disparity variable but no disparity_source attribute + validation"),
+ "C10": ("/tmp/out7-C10", [], "NOT REPORTED: needs filter_bilateral called directly, with other sigmas than the object's own, on a reused filter object (no pipeline does that)", "spatial kernel cached per window width on the filter object", "direct calls of filter_bilateral with different sigma_space of equal width on one object"),
+ "C11": ("/tmp/out7-C11", ["C11"], "every fifth C11 case gives the right image another mask convention (valid 5, no data 7)", "cbca reads the valid-pixel code once, from the left dataset", "left and right datasets with different valid_pixels attributes"),
+ "C12": ("/tmp/out7-C12", ["C12"], "C12 gained the scale-free relation: the same volume times 2^-30 must give the same ambiguity / risk bands", "ambiguity kernels replace a cost range below float32 eps by 1", "cost volume whose global range is below 1.2e-7"),
+ "C13": ("/tmp/out7-C13", [], "NOT REPORTED: needs one matching-cost object driven directly over image buffers refilled in place (a tiling driver); every pipeline builds a new object per run", "shifted right images memoised under the identity of the image array", "sad/ssd + subpix > 1 + the same numpy buffer refilled between two calls on one matching-cost object"),
+ "C14": ("/tmp/out7-C14", ["C14"], "", "mismatch test by magnitude (>= 512) instead of bit 9", "pixel carrying bit 10 or 11 without bit 9 (regularised intervals) + filling"),
+ "C15": ("/tmp/out7-C15", ["C14"], "reported by C14 (the pyramid fills masked pixels with the sgm filling helper); C15's own monitors compare levels that are wrong in the same way on both sides", "find_valid_neighbors bounds its paths by the SMALLER image side", "non-square image + run of invalid pixels longer than the short side"),
+ "C16": ("/tmp/out7-C16", ["C16"], "", "'nothing to flag' tested with np.any over the index arrays", "no input mask + a single no-data sample at row 0, column 0"),
+ "C17": ("/tmp/out7-C17", ["C17"], "C17's multiband bases now have one entirely-NaN band (first band on one image, last on the other)", "the all-NaN test looks at the first band only", "multiband image whose first band is entirely NaN"),
+ "C18": ("/tmp/out7-C18", [], "NOT REPORTED: needs NaN inside the disparity grids, whose legality no document states (the generators never produce it)", "the per-pixel grids are no longer copied at mono-resolution and their NaN are overwritten in place", "disparity grids containing NaN"),
+ "C19": ("/tmp/out7-C19", ["C19"], "every other command-line run of C19 is verbose (-v)", "an INFO log helper masks the validity flags in place before they are written", "INFO logging effective during save_results"),
+ "C20": ("/tmp/out7-C20", ["C20"], "suffixes that name another step kind ('optimization.before_filter') are drawn in C20, C01 and C05", "cumulative / non-cumulative decided by the substring 'filter' in the step name", "non-filter step whose suffix contains 'filter'"),
+}
 def main():
     table = json.load(open(sys.argv[1])) if len(sys.argv) > 1 else None
     items = [(pid, 1, v) for pid, v in ROUND1.items()] + [(pid, 2, v) for pid, v in ROUND2.items()] + [(pid, 3, v) for pid, v in ROUND3.items()]
-    items += [(pid, "3b", v) for pid, v in ROUND3B.items()] + [(pid, 4, v) for pid, v in ROUND4.items()] + [(pid, 5, v) for pid, v in ROUND5.items()] + [(pid, 6, v) for pid, v in ROUND6.items()]
+    items += [(pid, "3b", v) for pid, v in ROUND3B.items()] + [(pid, 4, v) for pid, v in ROUND4.items()] + [(pid, 5, v) for pid, v in ROUND5.items()] + [(pid, 6, v) for pid, v in ROUND6.items()] + [(pid, 7, v) for pid, v in ROUND7.items()]
     for pid, rnd, (src, caught, strengthened, what, needs) in items:
         name = f"{pid}-{rnd}"
         dst = os.path.join(V, "seeded", name)
@@ -187,7 +209,7 @@ def main():
         if os.path.exists(vf):
             ver = json.load(open(vf))
         meta = {
-            "property": pid, "name": name, "origin": "independent sub-agent given only the property text and a scratch worktree" + (" (second round: also shown the first-round patch, to avoid repeating it)" if rnd == 2 else "") + (" (third round: shown the two earlier patches, asked for another mechanism: step interactions, state between calls, copy/view, dtype, coordinates)" if str(rnd).startswith("3") else "") + (" (fourth round: shown the three earlier patches, asked for less-travelled paths: non-default parameters, domain extremes, two entry points, dtypes, coordinates, NaN/inf, a step present twice)" if rnd == 4 else "") + (" (fifth round: shown all earlier patches, asked for the slip that comes with a well-meant refactoring or optimisation)" if rnd == 5 else "") + (" (sixth round: shown the five earlier patches, asked for a clause or quantified dimension none of them touched, wrong values preferred to crashes)" if rnd == 6 else ""),
+            "property": pid, "name": name, "origin": "independent sub-agent given only the property text and a scratch worktree" + (" (second round: also shown the first-round patch, to avoid repeating it)" if rnd == 2 else "") + (" (third round: shown the two earlier patches, asked for another mechanism: step interactions, state between calls, copy/view, dtype, coordinates)" if str(rnd).startswith("3") else "") + (" (fourth round: shown the three earlier patches, asked for less-travelled paths: non-default parameters, domain extremes, two entry points, dtypes, coordinates, NaN/inf, a step present twice)" if rnd == 4 else "") + (" (fifth round: shown all earlier patches, asked for the slip that comes with a well-meant refactoring or optimisation)" if rnd == 5 else "") + (" (sixth round: shown the five earlier patches, asked for a clause or quantified dimension none of them touched, wrong values preferred to crashes)" if rnd == 6 else "") + (" (seventh round: told what an automated checker already explores, asked for a change it would most plausibly miss)" if rnd == 7 else ""),
             "change": what, "needs_to_manifest": needs,
             "confirmed_by_me": {
                 "patch_applies_to_repo_HEAD": ver.get("patch_applies_to_HEAD"),
